@@ -374,6 +374,14 @@ class CreatorQueries(MetaHarness):
             ok = AND(len(calls) == 1, calls[0][2][0] == mt.size[0], calls[0][2][1] == mt.size[1])
             for i in range(4):
                 ok = AND(ok, within(calls[0][1][i], mt.bbox[i], eps))
+            # ... and that one request produces every in-grid tile of the meta tile (slots outside the grid are skipped, not a stop)
+            want_tiles = [c for c in mt.tiles if c is not None]
+            ok = AND(ok, len(stores) == len(want_tiles))
+            for c in want_tiles:
+                hit = 0
+                for st in stores:
+                    hit = hit + ITE(AND(st[1][0] == c[0], st[1][1] == c[1]), 1, 0)
+                ok = AND(ok, hit == 1)
             return ok
         want_n = 1 if mode == 'single' else len([c for c in mgr.meta_grid.meta_tile(coord).tiles if c is not None])
         ok = AND(len(calls) == want_n, len(stores) == want_n)
@@ -409,7 +417,7 @@ def obligations(tier, seed):
                 if ms != (1, 1) and (tier == 'thorough' or level in levels[1:3]):
                     specs.append(spec(MOD, 'MinimalMetaTile', 'minimal-meta-tile/' + tag, cfg=c, cost=10))
     for gname, level in (('utm_ll', 1), ('frac_ll', 1), ('utm_ul', 2)) + ((('multi0_ul', 1), ('frac_ul', 2), ('sqrt2_ll', 2)) if tier == 'thorough' else ()):
-        for mode, ms, mb in (('single', (1, 1), 0), ('bulk', (2, 2), 0), ('bulk', (3, 2), 0), ('meta', (2, 2), 10)):
+        for mode, ms, mb in (('single', (1, 1), 0), ('bulk', (2, 2), 0), ('bulk', (3, 2), 0), ('meta', (2, 2), 10), ('meta', (3, 2), 0)):
             c = dict(grid=gname, seed=seed, level=level, meta_size=list(ms), meta_buffer=mb, mode=mode)
             specs.append(spec(MOD, 'CreatorQueries', 'creator-queries/%s/L%d/%s-m%dx%d' % (gname, level, mode, ms[0], ms[1]), cfg=c, cost=5))
     # producing a tile through its meta tile really produces it: any missing tile of the meta tile (not only the main tile) triggers
